@@ -1073,7 +1073,7 @@ class Interp:
         short = fq.split('::')[-1]
         if fq.startswith('graphite2::Vector<') and not getattr(self, 'raw_vectors', False):
             return self.vec_native(fn, e, short, obj, args)
-        if fq.startswith('std::numeric_limits<float>::max'):
+        if fq.startswith('std::numeric_limits<float>::max') and fq not in self.natives:
             return Op('max')
         if fq in ('std::move', 'std::forward'):
             return args[0]
